@@ -580,3 +580,11 @@ def gen_big_doc(rng: random.Random, kb: int = 100) -> str:
         size += len(ln) + 1
         i += 1
     return "# Big " + _word(rng) + "\n\n" + paragraph(rng, 2, 3) + "\n\n```text\n" + "\n".join(lines) + "\n```\n\n" + paragraph(rng, 1, 2) + "\n"
+
+
+def gen_deep_doc(rng: random.Random) -> str:
+    """A list nested far deeper than the interpreter's default recursion limit allows the
+    formatter to descend (the outcome - today a RecursionError - must be the same alone and
+    concurrently)."""
+    n = rng.choice([230, 260, 300])
+    return "".join("  " * i + f"- item {i}\n" for i in range(n))
